@@ -21,7 +21,7 @@ PROP = {'gen_tables': ['BwsFacts', 'TransLocked'], 'race': True,
                  'each critical section of s.mu acts on the byte-level state as one step (the thread machine with bytes applies Bws.write / '
                  'Bws.sync / mark when the section ends): justified by mutex_excl, the extracted lock-set skeleton (waits_outside_mu) and '
                  'C09\'s lock-set table (every access to buffer, flags and sink is under s.mu) — not by a proof about Go\'s memory model'],
- 'technique': 'Lean 4: executable model of bufio.Writer (from Go\'s source: loop, large-write path, short writes, sticky error) + '
+ 'technique': 'Lean 4: executable model of bufio.Writer (from Go\'s source: loop, large-write path, short writes, sticky error) +  + translated source (BufferedWriteSyncer.Write/Sync: lock first / unlock last, the pre-flush rule) + refinement of the byte-carrying thread machine to the sequential model (conc_refines_seq)'
               'BufferedWriteSyncer over a scripted sink, invariants by induction over unbounded histories; interleaving machine of clients, flush '
               'goroutine, the mutex and the stop/done/flushed channels with an inductive invariant, progress and a termination measure; the same '
               'machine carrying the byte-level state, with a refinement invariant giving linearizability (conc_refines_seq) and the byte-level '
